@@ -70,3 +70,43 @@ package livesql
 //@   loop 1 invariant len(update.deltas) == rangeindex+1
 //@   loop 2 invariant 0 <= i && 2*len(update.deltas) == i
 //@   loop 3 invariant len(update.deltas) == rangeindex+1
+
+// ---- C13 (wire kernel): a driver.Value survives valueToField -> FieldToValue unchanged, for each of the kinds
+// database/sql/driver allows (nil, int64, float64, bool, []byte, string, time.Time); anything else is rejected.
+// The protobuf encoding between the two and the reflection-driven Valuer/Scanner on either side are outside.
+//@ nonnil elem *thunderpb.Field_Bool, elem *thunderpb.Field_Int, elem *thunderpb.Field_Uint, elem *thunderpb.Field_String_, elem *thunderpb.Field_Bytes, elem *thunderpb.Field_Float64, elem *thunderpb.Field_Time
+
+//@ func valueToField
+//@   assigns nothing
+//@   ensures err == nil <==> (value == nil || (value is int64) || (value is float64) || (value is bool) || (value is []byte) || (value is string) || (value is time.Time))
+//@   ensures err == nil ==> result != nil && fresh(result)
+//@   ensures err == nil && value == nil ==> result.Kind == 1
+//@   ensures err == nil && (value is int64) ==> result.Kind == 3 && (result.Value is *thunderpb.Field_Int) && result.Value.(*thunderpb.Field_Int).Int == value.(int64)
+//@   ensures err == nil && (value is float64) ==> result.Kind == 7 && (result.Value is *thunderpb.Field_Float64) && result.Value.(*thunderpb.Field_Float64).Float64 == value.(float64)
+//@   ensures err == nil && (value is bool) ==> result.Kind == 2 && (result.Value is *thunderpb.Field_Bool) && result.Value.(*thunderpb.Field_Bool).Bool == value.(bool)
+//@   ensures err == nil && (value is []byte) ==> result.Kind == 6 && (result.Value is *thunderpb.Field_Bytes) && result.Value.(*thunderpb.Field_Bytes).Bytes == value.([]byte)
+//@   ensures err == nil && (value is string) ==> result.Kind == 5 && (result.Value is *thunderpb.Field_String_) && result.Value.(*thunderpb.Field_String_).String_ == value.(string)
+//@   ensures err == nil && (value is time.Time) ==> result.Kind == 8 && (result.Value is *thunderpb.Field_Time) && result.Value.(*thunderpb.Field_Time).Time != nil && deref(result.Value.(*thunderpb.Field_Time).Time) == value.(time.Time)
+
+//@ func FieldToValue
+//@   requires field != nil
+//@   assigns nothing
+//@   ensures field.Kind == 1 ==> err == nil && result == nil
+//@   ensures field.Kind == 3 && (field.Value is *thunderpb.Field_Int) ==> err == nil && result == any(field.Value.(*thunderpb.Field_Int).Int)
+//@   ensures field.Kind == 7 && (field.Value is *thunderpb.Field_Float64) ==> err == nil && result == any(field.Value.(*thunderpb.Field_Float64).Float64)
+//@   ensures field.Kind == 2 && (field.Value is *thunderpb.Field_Bool) ==> err == nil && result == any(field.Value.(*thunderpb.Field_Bool).Bool)
+//@   ensures field.Kind == 6 && (field.Value is *thunderpb.Field_Bytes) ==> err == nil && result == any(field.Value.(*thunderpb.Field_Bytes).Bytes)
+//@   ensures field.Kind == 5 && (field.Value is *thunderpb.Field_String_) ==> err == nil && result == any(field.Value.(*thunderpb.Field_String_).String_)
+//@   ensures field.Kind == 8 && (field.Value is *thunderpb.Field_Time) && field.Value.(*thunderpb.Field_Time).Time != nil ==> err == nil && result == any(deref(field.Value.(*thunderpb.Field_Time).Time))
+//@   ensures !(1 <= field.Kind && field.Kind <= 8) ==> err != nil
+
+//@ func verifFieldRoundTrip
+//@   assigns nothing
+//@   ensures err == nil <==> (v == nil || (v is int64) || (v is float64) || (v is bool) || (v is []byte) || (v is string) || (v is time.Time))
+//@   ensures err == nil && v == nil ==> result == v
+//@   ensures err == nil && (v is int64) ==> result == v
+//@   ensures err == nil && (v is float64) ==> result == v
+//@   ensures err == nil && (v is bool) ==> result == v
+//@   ensures err == nil && (v is string) ==> result == v
+//@   ensures err == nil && (v is []byte) ==> result == v
+//@   ensures err == nil && (v is time.Time) ==> result == v
